@@ -15,8 +15,9 @@ CONSTANTS N, K, L, Mode
 
 \* the larger scopes use fewer atoms (the structure, not the atom, is what they vary)
 Atoms == IF N * K >= 9 THEN { Atom("int", "7") }
-         ELSE IF N * K >= 6 THEN { Atom("int", "7"), Atom("str", "a") }
-         ELSE { Atom("none", ""), Atom("bool", "True"), Atom("int", "7"), Atom("int", "300"), Atom("str", "a") }
+         ELSE IF N * K >= 6 THEN { Atom("int", "7"), Atom("str", "abcd") }
+         \* the smallest scope also has two atoms of different types with the same text
+         ELSE { Atom("none", ""), Atom("bool", "True"), Atom("int", "7"), Atom("bytes", "abcd"), Atom("str", "abcd") }
 NodeIds == 1..N
 Items == Atoms \cup { Ref(i) : i \in NodeIds }
 Types == {"list", "dict", "set", "tuple", "host"}
